@@ -689,9 +689,13 @@ def eval_kao(
     else:
         "GTOval_sph_deriv%d" % deriv
     if n1 == 0:
-        return eval_flapl_gto(
+        kao = eval_flapl_gto(
             slst, mol, coords, shls_slice, non0tab, cutoff=cutoff, out=out
         )
+        if comp == 1:
+            # eval_flapl_gto drops the component axis for a single power
+            kao = kao[None]
+        return kao
     else:
         comp += 3 * n1
         nao = mol.nao_nr()
